@@ -462,6 +462,16 @@ def paste (lx : String → LexOne) (lhs rhs : Tok) : Except Err Tok :=
 
 /-! ## `subst` -/
 
+/-- the loop `while (arg2 && arg2->tok->kind == TK_EOF && equal(rhs->next, "##") && rhs->next->next->kind != TK_EOF)
+    { rhs = rhs->next->next; arg2 = find_arg(args, rhs); }` of the arm "parameter with an empty argument followed by `##`"
+    of `subst` (`fix:` 5a15c0f): from the right operand `rhs` of that `##` and the tokens after it, skip `q ##` while `q` is a
+    parameter whose argument is empty and a further operand exists; the result is the operand the loop stops at and the
+    tokens after it (`tok = rhs->next`) -/
+def skipEmptyOperands (args : List MacroArg) : Tok → List Tok → Tok × List Tok
+  | rhs, h :: q :: rest =>
+    if emptyParam args rhs && h.text == "##" then skipEmptyOperands args q rest else (rhs, h :: q :: rest)
+  | rhs, rest => (rhs, rest)
+
 /-- the pre-expander handed to `subst` (it is `preprocess2` with the remaining fuel) -/
 abbrev PreExpand := St → List Tok → Except Err (List Tok × St)
 
@@ -515,9 +525,12 @@ def substLoop (lx : String → LexOne) (pp : PreExpand) (isObj : Bool) :
         | rhs :: rest3 =>
           match a.toks with
           | [] =>
-            match findArg args (some rhs) with
-            | some a2 => substLoop lx pp isObj n st args rest3 (a2.toks.reverse ++ acc)
-            | none => substLoop lx pp isObj n st args rest3 (rhs :: acc)
+            -- an empty argument stands for a placemarker: the `while` loop of `fix:` 5a15c0f moves `rhs` over every
+            -- `q ##` whose `q` is an empty argument too (placemarker ## placemarker = placemarker, C11 6.10.3.3p3)
+            match findArg args (some (skipEmptyOperands args rhs rest3).1) with
+            | some a2 => substLoop lx pp isObj n st args (skipEmptyOperands args rhs rest3).2 (a2.toks.reverse ++ acc)
+            | none =>
+              substLoop lx pp isObj n st args (skipEmptyOperands args rhs rest3).2 ((skipEmptyOperands args rhs rest3).1 :: acc)
           | _ :: _ =>
             substLoop lx pp isObj n st args rest ((setHeadFlags a.toks tok.atBol tok.hasSpace).reverse ++ acc)
       else
